@@ -50,13 +50,16 @@ def main():
         print(json.dumps(out, indent=1)); return 2
     if dest.startswith(wt):
         dest = dest[len(wt):].lstrip("/")
+    destname = None
+    if dest.endswith(".go"):
+        dest, destname = os.path.dirname(dest), os.path.basename(dest)
     clean = "git checkout -q -- . && git clean -fdq -e _seeded"
     sh(clean, wt)
     rc, head = sh("git -C /repo rev-parse HEAD")
     sh("git checkout -q --detach %s" % head.strip(), wt)
     def run_demo():
         for d in demos:
-            shutil.copy(d, os.path.join(wt, dest))
+            shutil.copy(d, os.path.join(wt, dest, destname or os.path.basename(d)))
         cmd = "go test -mod=mod -vet=off -count=1 ./%s/ %s 2>&1 | tail -30" % (dest, ("-run '%s'" % run) if run else "")
         rc, o = sh(cmd + "; exit ${PIPESTATUS[0]}", wt)
         ok = ("\nok " in "\n" + o or o.startswith("ok ")) and "FAIL" not in o
@@ -71,7 +74,7 @@ def main():
     ok_patched, o2 = run_demo()
     out["demo_fails_with_change"] = not ok_patched
     for d in demos:
-        try: os.remove(os.path.join(wt, dest, os.path.basename(d)))
+        try: os.remove(os.path.join(wt, dest, destname or os.path.basename(d)))
         except OSError: pass
     # suite on the patched tree
     rc, o = sh("go test -mod=mod -json -vet=off -count=1 -timeout 25m ./... 2>/dev/null > /tmp/seedsuite.$$.json; python3 - /tmp/seedsuite.$$.json <<'PY'\nimport json,sys\npassed=set()\nfor l in open(sys.argv[1]):\n    try: e=json.loads(l)\n    except Exception: continue\n    t=e.get('Test')\n    if t and '/' not in t and e.get('Action')=='pass': passed.add(e['Package']+'::'+t)\nbase=json.load(open('/root/.vp/BASELINE.json'))['stable_pass']\nmissing=[b for b in base if b not in passed]\nprint(json.dumps(missing))\nPY\nrm -f /tmp/seedsuite.$$.json", wt)
